@@ -17,7 +17,8 @@ theorem C08_facts : Facts.minerAllowAhead = 1 ∧ Facts.minerPocSlot = 3 ∧ Fac
 `bestQuality.Cmp(GetTarget(Timestamp)) > 0`, `workSlot = Timestamp/pocSlot`; `time.Now().After(Timestamp)` before
 `ProcessBlock` and the recording of the mined height; the double-mining test and `SignHash(tProof.proof.SpaceID, ..)` -/
 theorem C08_condition_facts :
-    Facts.condMinerSearch = true ∧ Facts.condMinerSubmit = true ∧ Facts.condMinerDouble = true := by decide
+    Facts.condMinerSearch = true ∧ Facts.condMinerSubmit = true ∧ Facts.condMinerDouble = true ∧
+    Facts.minerMinedHeightOnlyGrows = true := by decide
 
 /-! ### choosing the best proof of one slot -/
 
